@@ -10,6 +10,7 @@
 #define private public
 #define protected public
 #include <cppcms/http_request.h>
+#include "src/http_request.cpp"   // the working-tree source, not the prebuilt library
 #include "src/scgi_api.cpp"
 #undef private
 #undef protected
